@@ -345,11 +345,17 @@ impl TestRunner {
         match opcode {
             0x20 => {
                 // jsr
+                // We're done when the subroutine has returned to the instruction after the call. Only the program counter
+                // getting there is not enough: when the subroutine calls itself from this very location the nested
+                // call returns there as well, but with a different stack pointer.
                 let wait_until_pc = self.cpu.get_program_counter() + 3;
+                let wait_until_sp = self.cpu.get_stack_pointer();
                 loop {
                     let result = self.execute_instruction()?;
 
-                    if self.cpu.get_program_counter() == wait_until_pc {
+                    if self.cpu.get_program_counter() == wait_until_pc
+                        && self.cpu.get_stack_pointer() == wait_until_sp
+                    {
                         return Ok(result);
                     }
 
